@@ -203,12 +203,13 @@ func ruleStrictValidated(c *Ctx, rule string) {
 			return
 		}
 		arg := call.Args[1]
-		ex, isEx := arg.(*ssa.Extract)
-		if !isEx {
-			return
+		var lk *ssa.Lookup
+		if ex, isEx := arg.(*ssa.Extract); isEx {
+			lk, _ = ex.Tuple.(*ssa.Lookup)
+		} else if l2, isLk := arg.(*ssa.Lookup); isLk {
+			lk = l2
 		}
-		lk, isLk := ex.Tuple.(*ssa.Lookup)
-		if !isLk {
+		if lk == nil {
 			return
 		}
 		if _, isParam := lk.X.(*ssa.Parameter); !isParam {
@@ -234,7 +235,7 @@ func ruleStrictValidated(c *Ctx, rule string) {
 		c.R.Add(rule+"a", c.fk(f), "write:param-value/requires:Valid("+segAP+")", c.pos(in), dom, ifelse(dom, "dominated by the true edge of Valid(value) on the same segment", "strict URL building writes a parameter value that was not validated against its segment"))
 	})
 	if n == 0 {
-		an.Fatalf("UNRESOLVED anchor: no parameter-value write in %s", c.fk(f))
+		c.R.Add(rule+"a", c.fk(f), "write:param-value/requires:Valid", c.P.Pos(f.Pos()), false, "the strict URL builder no longer writes looked-up parameter values")
 	}
 	// (b) anchoring in Valid (both ends) and Match (start)
 	match := a.SegmentMatch
